@@ -40,6 +40,14 @@ def op_views(bc):
     return snapshot(bc)
 
 
+def op_settings_map_raw(bc):
+    return freeze([bc.settings_map(index_type=it, pretty=False, parse=False) for it in ("name", "const", "enum")])
+
+
+def op_settings_map_all(bc):
+    return freeze([bc.settings_map(index_type=it, pretty=pr, parse=pa) for it in ("name", "const", "enum") for pr in (False, True) for pa in (False, True)])
+
+
 def _c2http_obs(c):
     return freeze([c.submit_uri, c.submit_verb, c.get_uris, c.get_verb, c.transform_get.tsteps, c.transform_get.rsteps,
                    c.transform_submit.tsteps, c.transform_submit.rsteps, c.transform_response.tsteps, c.transform_response.rsteps,
@@ -121,13 +129,13 @@ def op_mutate_views(bc):
     return out
 
 
-OPS = [op_views, op_c2http_keys, op_c2http_rand, op_c2http_rsa, op_client, op_profile, op_get_roundtrip, op_post_roundtrip,
+OPS = [op_views, op_settings_map_raw, op_settings_map_all, op_c2http_keys, op_c2http_rand, op_c2http_rsa, op_client, op_profile, op_get_roundtrip, op_post_roundtrip,
        op_server_roundtrip, op_mutate_views]
 
 comp = Component("histories-of-one-configuration",
-                 "generated complete HTTP(S) configurations (random get/post/server programs); operations: views, C2Http with each key "
+                 "generated complete HTTP(S) configurations (random get/post/server programs); operations: views, settings_map with every index / pretty / parse combination, C2Http with each key "
                  "variant, client dry-run, profile generation, get/post/server transform+recover, mutation attempts on the four "
-                 "mappings; ALL sequences of length <= 2 (quick) / <= 3 (thorough) over the 10 operations plus random sequences of "
+                 "mappings; ALL sequences of length <= 2 (quick) / <= 3 (thorough) over the 12 operations plus random sequences of "
                  "length 4-12 (60 quick / 1000 thorough); after every operation: views == fresh snapshot and result == result on a "
                  "fresh configuration")
 c_mut = Component("mappings-reject-mutation", "set / delete / insert / clear / update / pop on settings, raw_settings, settings_by_index, "
